@@ -19,7 +19,7 @@ RULE = (
     "a case = one byte string tokenised with PSBaseParser.nexttoken() until PSEOF under every constant "
     "buffer size 1..k and the default (k=9 quick, 33 thorough; sweep cases: 1..len+1 and default). Strings come "
     "from an exhaustive sweep of all strings up to length L over a 31-byte class alphabet (L=3 quick, 4 thorough; "
-    "length 5 over a reduced alphabet in thorough) and from seeded swarm sampling of lengths 1..64. "
+    "length 5 over a reduced alphabet in thorough) and from seeded swarm sampling of lengths 1..64, plus (1 case in 300) a token of 4299..8193 bytes of one lexical class under sizes default/1/3/4097. "
     "distinct = distinct byte strings; non-trivial = the string yields at least one token and is at least 2 bytes long."
 )
 COMPONENTS_REAL = ["pdfminer.psparser.PSBaseParser (all scanners, fillbuf, nexttoken)"]
@@ -28,7 +28,7 @@ ASSUMPTIONS = [
     "buffer sizes are constant per tokenisation, as the statement says (varying sizes are exercised under C01)",
     "work bound: steps <= 60*(len+2) monitored events",
 ]
-PROBES = ["refill inside string escape", "refill inside hex name escape", "refill inside number", "eof flush produced token"]
+PROBES = ["very long token", "refill inside string escape", "refill inside hex name escape", "refill inside number", "eof flush produced token"]
 TIERS = {
     "quick": {"batches": 16, "runs": 25000, "budget_s": 40, "kmax": 9, "sweep_len": 3},
     "thorough": {"batches": 64, "runs": 40000, "budget_s": 900, "kmax": 33, "sweep_len": 4},
@@ -148,6 +148,15 @@ def check_string(data, sizes, ctx):
     return list(seen.values()), ref or []
 
 
+def gen_long(tape):
+    """A very long token (thousands of bytes of one lexical class) with a little context around it."""
+    ch = tape.pick([b"1", b"7", b"9", b"a", b"(", b"<", b"A", b"#", b".", b"\\", b"%", b"\x00", b" "], "long.ch")
+    n = tape.pick([4299, 4300, 4301, 4400, 5000, 8193], "long.n")
+    pre = tape.pick([b"", b" ", b"/", b"(", b"<", b"-", b"+", b"1.", b"[ "], "long.pre")
+    post = tape.pick([b"", b" ", b")", b">", b" ]", b"\n/x"], "long.post")
+    return pre + ch * n + post
+
+
 def gen_string(tape):
     mix = tape.pick(["uniform", "string", "name", "number", "delim", "raw"], "mix")
     n = 1 + tape.draw(64 if not tape.coin(70, 100, "short") else 12, "len")
@@ -168,6 +177,10 @@ def run(tape, ctx, item=None):
     if item is not None:
         data = bytes.fromhex(item["data"])
         sizes = [0] + list(range(1, min(len(data), kmax) + 2))
+    elif tape.coin(1, 300, "long"):
+        data = gen_long(tape)
+        sizes = [0, 1, 3, 4097]
+        ctx.probe("very long token")
     else:
         data = gen_string(tape)
         sizes = [0] + list(range(1, kmax + 1))
